@@ -570,7 +570,7 @@ func (e *Env) index(n *EIndex) (*SVal, error) {
 }
 
 var builtinSpecFuncs = map[string]bool{"len": true, "cap": true, "old": true, "be16": true, "be32": true, "be64": true, "bytesEq": true,
-	"crc32c": true, "dom": true, "isnil": true, "arrOf": true, "offOf": true, "sameArr": true, "typeIs": true, "allocated": true, "fresh": true, "update": true, "str": true}
+	"crc32c": true, "dom": true, "isnil": true, "arrOf": true, "offOf": true, "sameArr": true, "typeIs": true, "allocated": true, "fresh": true, "update": true, "str": true, "boxed": true}
 
 func (e *Env) call(n *ECall) (*SVal, error) {
 	c := e.c
@@ -711,6 +711,17 @@ func (e *Env) call(n *ECall) (*SVal, error) {
 			return nil, err
 		}
 		return &SVal{store(m.T, k.T, v.T), m.Ty}, nil
+	case "boxed":
+		// boxed(x): the interface value holding x (the injective constructor MakeInterface uses)
+		a, err := e.expr(n.Args[0])
+		if err != nil {
+			return nil, err
+		}
+		if a.Ty == nil || a.Ty.Go == nil {
+			return nil, e.errf("boxed needs a typed value")
+		}
+		f := c.declFun("mkiface:"+typeShort(a.Ty.Go), []Sort{a.T.Sort}, SInt)
+		return &SVal{app(f, SInt, a.T), goT(types.NewInterfaceType(nil, nil))}, nil
 	case "str":
 		// str(b): the string made of the bytes of slice b
 		a, err := e.expr(n.Args[0])
